@@ -336,3 +336,28 @@ def world_stats(chk, world):
         chk.stat("layout has CR")
     if any(ord(c) > 127 for c in t):
         chk.stat("layout has non-ASCII")
+
+
+# ------------------------------------------------------------------ corpus (hand-written worlds)
+def world_from_files(files, as_string):
+    """files: ordered mapping name -> raw text (main model first)."""
+    out = []
+    for i, (name, raw) in enumerate(files.items()):
+        f = File(0)
+        f.ix, f.name, f.raw = i, name, raw
+        f.seen = raw if as_string else universal_newlines(raw)
+        out.append(f)
+    return {"files": out, "string": as_string}
+
+
+def corpus_files(pid):
+    d = os.path.join(core.VERIF, "corpus", pid)
+    if not os.path.isdir(d):
+        return []
+    import json
+    res = []
+    for n in sorted(os.listdir(d)):
+        if n.endswith(".json"):
+            with open(os.path.join(d, n), encoding="utf-8") as fh:
+                res.append((n, json.load(fh)))
+    return res
